@@ -132,6 +132,54 @@ func vExecStep(s *drv.Server, bucket string, m *model.VersionModel, st vstep, st
 			}
 		}
 		m.Put(st.Key, body, meta, id)
+	case "copy":
+		// the key copied onto itself with other metadata: a new version with the bytes of the
+		// version an unqualified read serves; the source version keeps its own metadata
+		meta := map[string]string{"X-Amz-Meta-Ver": fmt.Sprintf("copy-h%d-s%d", hist, stepNo), "Content-Type": fmt.Sprintf("text/x-copy-%d", stepNo)}
+		resp := s.Do(&drv.Req{Method: "PUT", Path: drv.ObjPath(bucket, st.Key), Header: drv.H("x-amz-copy-source", drv.CopySourceEscape(bucket, st.Key),
+			"x-amz-meta-ver", meta["X-Amz-Meta-Ver"], "Content-Type", meta["Content-Type"])})
+		if resp.Panic != nil {
+			return fail("panic", fmt.Sprintf("copy panicked: %v", resp.Panic))
+		}
+		cands := m.Resolve(st.Key)
+		switch resp.Status {
+		case 404:
+			for _, c := range cands {
+				if c == nil || c.Marker {
+					return nil
+				}
+			}
+			return fail("copy-refused", "copy of a key whose unqualified read serves an object answered "+resp.String())
+		case 200:
+			id := resp.Header.Get("x-amz-version-id")
+			if m.Enabled && (id == "" || m.SeenID(id)) {
+				// the handler reports the source's version id in this header; learn the new id from the read below
+				id = ""
+			}
+			g := s.Get(bucket, st.Key)
+			if gid := g.Header.Get("x-amz-version-id"); m.Enabled && gid != "" && !m.SeenID(gid) {
+				id = gid
+			}
+			if m.Enabled && id == "" {
+				return fail("version-id-missing", "the version created by a copy in an Enabled bucket has no fresh version id (GET says "+g.Header.Get("x-amz-version-id")+")")
+			}
+			var src *model.VEntry
+			for _, c := range cands {
+				if c != nil && !c.Marker && bytes.Equal(c.Body, g.Body) {
+					src = c
+					break
+				}
+			}
+			if g.Status != 200 || src == nil {
+				return fail("copy-body-mismatch", fmt.Sprintf("after copying the key onto itself GET answers %s, which is not the object an unqualified read could serve before", g))
+			}
+			if r != nil {
+				r.Count("self_copies", 1)
+			}
+			m.Put(st.Key, src.Body, meta, id)
+		default:
+			return fail("copy-failed", resp.String())
+		}
 	case "delete":
 		resp := s.Delete(bucket, st.Key)
 		if resp.Panic != nil {
@@ -430,6 +478,8 @@ func genVersionHistory(rng interface{ Intn(int) int }, keys []string, n int) []v
 	for len(steps) < n {
 		k := keys[rng.Intn(len(keys))]
 		switch x := rng.Intn(100); {
+		case x < 7:
+			steps = append(steps, vstep{Op: "copy", Key: k})
 		case x < 38:
 			steps = append(steps, vstep{Op: "put", Key: k})
 		case x < 55:
@@ -459,7 +509,7 @@ func genVersionHistory(rng interface{ Intn(int) int }, keys []string, n int) []v
 func runC05(c *Ctx) {
 	r := c.R
 	exhLen := r.Pick(5, 8)
-	r.SetRule(fmt.Sprintf("bounded-exhaustive: every history of length %d over {put, delete, delete-version(newest), delete-version(oldest), enable, suspend} on one key from a never-versioned bucket; random: histories of 20-60 steps over 3 keys incl. multi-delete with and without version ids and unknown ids; after every step every version id ever handed out is read by GET and HEAD ?versionId and every key is read unqualified (GET+HEAD) and compared with VersionModel; memory backend; distinct = distinct step sequences", exhLen))
+	r.SetRule(fmt.Sprintf("bounded-exhaustive: every history of length %d over {put, delete, delete-version(newest), delete-version(oldest), enable, suspend} on one key from a never-versioned bucket; random: histories of 20-60 steps over 3 keys incl. multi-delete with and without version ids and unknown ids and copies of a key onto itself with other metadata; after every step every version id ever handed out is read by GET and HEAD ?versionId and every key is read unqualified (GET+HEAD) and compared with VersionModel; memory backend; distinct = distinct step sequences", exhLen))
 	r.Exhaustive(true)
 	alpha := []vstep{{Op: "put", Key: "vk"}, {Op: "delete", Key: "vk"}, {Op: "delete-version", Key: "vk", Which: 0}, {Op: "delete-version", Key: "vk", Which: 9},
 		{Op: "enable"}, {Op: "suspend"}}
